@@ -186,6 +186,12 @@ pub fn run_prop(a: &Args, prop: &str, pnum: u64) {
         }
         let mut rng = Rng::for_case(a.seed, pnum, case as u64 + 1);
         let cfg = GenCfg { precs: rng.chance(1, 4), ..GenCfg::default() };
+        if case % 8 == 5 {
+            // same-core states that Pager must merge or keep apart (see C02)
+            let t = if rng.chance(1, 5) { grammar::pager_orphan_family(&mut rng) } else { grammar::general_contexts(&mut rng) };
+            emit(&mut out, &mut worker, &t, &mut rng, a.thorough, "contexts", prop);
+            continue;
+        }
         let g = if case % 4 == 2 { grammar::layered_grammar(&mut rng) } else { grammar::random_grammar(&mut rng, &cfg) };
         emit(&mut out, &mut worker, &g.render(), &mut rng, a.thorough, if case % 4 == 2 { "layered" } else { "random" }, prop);
     }
